@@ -44,7 +44,8 @@ def _check(s, timeout_ms):
 class Z:
     """emit terms to z3; sqrt is purified: fresh s with s >= 0 and s*s = arg (side list)"""
 
-    def __init__(self):
+    def __init__(self, sqrt_exact=True):
+        self.sqrt_exact = sqrt_exact
         self.c = {}
         self.side = []
         self.ufs = {}
@@ -79,7 +80,8 @@ class Z:
                 e = -a[0]
             elif o == 'sqrt':
                 e = z3.Real('sqrt!%d' % u.id)
-                self.side.append(z3.And(e >= 0, e * e == a[0]))
+                # abstraction level 0 keeps only s >= 0 (sound generalisation: a proof under it holds for the real sqrt)
+                self.side.append(z3.And(e >= 0, e * e == a[0]) if self.sqrt_exact else (e >= 0))
                 self.sqrt_args.append(u.a[0])
             elif o == 'abs':
                 e = z3.If(a[0] >= 0, a[0], -a[0])
@@ -244,7 +246,7 @@ class Result:
         return 'Result(%s, %.2fs%s)' % (self.verdict, self.seconds, ', ' + self.note if self.note else '')
 
 
-def valid(goal, assume=(), timeout_ms=20000, defined=True, extra_side=(), axioms=True, tactic=None):
+def valid(goal, assume=(), timeout_ms=20000, defined=True, extra_side=(), axioms=True, tactic=None, sqrt_exact=True):
     """is  (/\\ assume) -> goal  valid over the reals?  (definedness of every division and
     square root occurring is *assumed* when defined=True)"""
     if goal is tm.TRUE:
@@ -256,7 +258,7 @@ def valid(goal, assume=(), timeout_ms=20000, defined=True, extra_side=(), axioms
         A += definedness(roots)
     if axioms:
         A += pow_axioms(roots + A)
-    z = Z()
+    z = Z(sqrt_exact=sqrt_exact)
     g = z(goal)
     AA = [z(a) for a in A]
     s = z3.Solver() if tactic is None else z3.Tactic(tactic).solver()
